@@ -87,3 +87,9 @@ META["C07"] = {
              "mutated inputs; accepted values are judged by an independent transport-policy predicate over the public accessors."),
     "note": "The predicate is harness code written from the property text.",
 }
+META["C08"] = {
+    "technique": "rapid PBT over scripted bundle worlds (model-based): builder run against a reference dependency closure and brute-force version selection",
+    "text": ("Generated worlds (packages, registry, dependency graphs incl. cycles and registry hops, Add scripts) are built with a logging "
+             "fetcher/registry/finder; the finished bundle is compared with a closure computed independently of the builder."),
+    "note": "lib/world.Reference is the trusted model; version-set membership is taken from go-versions, precedence is re-implemented.",
+}
